@@ -708,6 +708,61 @@ def _hidden_randomness(model, rep):
         raise AnalysisError(f"only {n} ARPACK calls found")
 
 
+def _cache_entries_not_handed_out(model, rep):
+    """MappingIsoparametric.J memoises the Jacobian entries per point set
+    and returns the stored arrays.  Its consumers combine them into new
+    arrays (determinants, inverses) - except where an entry *is* the result:
+    in one dimension det DF = J[0][0].  Returning that entry hands the
+    caller the cache itself; an in-place operation on the result (det *= W)
+    changes every later evaluation on the mapping, which is cached on the
+    mesh.  Every value a method of the class returns that is a bare entry
+    of the memoised table must be copied."""
+    R1 = "C15-R1"
+    cls = model.cls("skfem.mapping.mapping_isoparametric",
+                    "MappingIsoparametric")
+    n = 0
+    for name, fn in sorted(cls.methods.items()):
+        if name == "J":
+            continue
+        entries = {}
+        for x in walk_no_nested(fn.node):
+            if isinstance(x, ast.Assign) and len(x.targets) == 1 and \
+                    isinstance(x.targets[0], ast.Name):
+                v = x.value
+                bare = v
+                while isinstance(bare, ast.Subscript):
+                    bare = bare.value
+                if isinstance(v, ast.Subscript) and isinstance(
+                        bare, ast.Name) and bare.id == "J":
+                    entries[x.targets[0].id] = x
+                elif x.targets[0].id in entries:
+                    del entries[x.targets[0].id]
+        rets = [r.value for r in walk_no_nested(fn.node)
+                if isinstance(r, ast.Return) and r.value is not None]
+        for r in rets:
+            names = [r.id] if isinstance(r, ast.Name) else []
+            for nm in names:
+                if nm in entries:
+                    n += 1
+                    rep.fail(R1, fn.path, fn.short(),
+                             f"{fn.short()}:{nm}:cache-entry-returned",
+                             f"'{src(entries[nm])}' is returned as it is: "
+                             f"an entry of the table memoised by J() - the "
+                             f"caller's in-place operation on the result "
+                             f"(det *= W) changes every later evaluation "
+                             f"of the mapping", entries[nm].lineno)
+        if any(isinstance(x, ast.Name) and x.id == "J"
+               for x in ast.walk(fn.node)):
+            n += 1
+            if not any(nm in entries for r in rets
+                       for nm in ([r.id] if isinstance(r, ast.Name) else [])):
+                rep.ok(R1, f"{fn.short()}:cache-entries",
+                       "no bare entry of the memoised Jacobian table is "
+                       "returned")
+    if n < 2:
+        raise AnalysisError("MappingIsoparametric: consumers of J not found")
+
+
 def _uninitialised(model, rep):
     """R6: nothing a caller can see is read from uninitialised memory.
     (a) Every np.empty buffer is covered *structurally*: all its stores use
@@ -972,6 +1027,7 @@ def run(model: Model, rep, tier: str) -> None:
              "np.empty buffers covered structurally; oriented facet sets "
              "designate existing cells")
     _uninitialised(model, rep)
+    _cache_entries_not_handed_out(model, rep)
     _hidden_randomness(model, rep)
     an = Analyzer(model)
     sites = _memo_rules(model, an, rep)
